@@ -2,7 +2,7 @@
 (* WIRE engine=112 fn=dispatch_c12 *)
 From Coq Require Import List NArith Bool.
 From RPFT Require Import Base.Sexp Base.PyStr Base.ODict Base.Result Gen.Tables Cell.Cell
-  Index.Args Index.Bulk.
+  Index.Args Index.Bulk Index.BulkHistory.
 Import ListNotations.
 Local Open Scope N_scope.
 
@@ -93,6 +93,27 @@ Definition enc_item (x : result (perr unit) (inst wD wT)) : sexp :=
 Definition enc_flow (kv : str * wF) : sexp :=
   let '(n, (t, c, st)) := kv in L [enc_str n; A t; enc_ctx c; A st].
 
+(* a sequence of calls on one parser object (BulkHistory.run_calls), recording compiler, fresh container = state 0 *)
+Definition dec_call (x : sexp) : option (@call) :=
+  match x with
+  | L [A 0; rows] => match dec_list dec_cfrow rows with Some r => Some (CAll r) | None => None end
+  | L [A 1; tn; ds; id; av] =>
+    match dec_str tn, dec_str ds, dec_str id, dec_list c12_dec_nv av with
+    | Some tn', Some ds', Some id', Some av' => Some (CBlock tn' ds' id' av')
+    | _, _, _, _ => None
+    end
+  | _ => None
+  end.
+
+Definition enc_outcome (reg : registry wD wT) (c : @call) (o : @outcome wF N unit) : sexp :=
+  match o, c with
+  | OAll (Ok (fl, st)), CAll rows => L [L [A 0; enc_list enc_flow fl; A st]; enc_list enc_item (plan reg rows)]
+  | OAll (Err e), CAll rows => L [s_err (perr_code e); enc_list enc_item (plan reg rows)]
+  | OBlock (Ok ((t, c, st), st')), _ => L [A 0; A t; enc_ctx c; A st; A st']
+  | OBlock (Err e), _ => s_err (perr_code e)
+  | _, _ => s_badinput
+  end.
+
 Definition dispatch_c12 (fn : N) (args : list sexp) : sexp :=
   match fn, args with
   | 1, [ss; defs; av; c] =>
@@ -122,6 +143,13 @@ Definition dispatch_c12 (fn : N) (args : list sexp) : sexp :=
     match dec_registry ts ss, dec_str tn, dec_str ds, dec_str id, dec_list c12_dec_nv av with
     | Some reg, Some tn', Some ds', Some id', Some av' => enc_item (prepare_block reg tn' ds' id' av')
     | _, _, _, _, _ => s_badinput
+    end
+  | 5, [ts; ss; calls; fail] =>
+    match dec_registry ts ss, dec_list dec_call calls, dec_list dec_str fail with
+    | Some reg, Some cs, Some fail' =>
+      let '(reg', outs) := run_calls (rec_compile fail') 0 reg cs in
+      enc_list (fun co => enc_outcome reg' (fst co) (snd co)) (combine cs outs)
+    | _, _, _ => s_badinput
     end
   | _, _ => s_badinput
   end.
